@@ -22,11 +22,12 @@ Flow (DESIGN.md section 5, C08):
 
 Tolerances (absolute, in units of the natural scale s_l = sqrt((2l+1)/(2 pi)) of degree l;
 derivatives (l+1) s_l; solid harmonics r^l):  1e-9.
-Calibration on the pinned tree (max over all cases of the thorough tier, same units):
-  values l<=12: recursion 2.2e-16, scipy 3.4e-16; derivatives 6.6e-15; solid 2.2e-16;
-  high degrees (l<=80) vs ylm.py: recursion 1.3e-13, scipy 4.3e-14, derivative 5.4e-13, addition
-  theorem 2.5e-14 (relative to (2l+1)/4pi);  cart->sph angles 1.8e-13, round trip 1.4e-15.
-  The mutants of selftest() produce errors >= 1e-3 in the same units.
+Calibration on the pinned tree (thorough tier, seeds 0, 1, 2; max over all cases, same units):
+  l <= 12 against the trees and 12 < l <= 80 against ylm.py: recursion 1.1e-13, scipy 6.4e-14,
+  both implementations against each other 9.3e-14, derivatives 1.6e-14 (theta 4.7e-15), solid
+  harmonics 7.2e-15, addition theorem 2.8e-13 (relative to (2l+1)/4pi);
+  cart->sph: integer lattice 1.7e-16, forward 8.9e-15, round trip 6.1e-15 (tolerance 1e-9).
+  The 19 source-level mutants of selftest() are all reported (errors >= 1e-3 in the same units).
 """
 from __future__ import annotations
 
